@@ -22,7 +22,7 @@ Definition stage (p : pc) : nat :=
   match p with
   | Idle => 0
   | WaitDone _ => 1
-  | CallFin _ => 2
+  | CallFin _ _ => 2
   | InCall _ => 3
   | CWalk (KSame1 _) _ _ => 6
   | CWalk _ _ _ => 4
